@@ -35,7 +35,7 @@ package store
 
 // ---- pending batch (headers appended but not yet flushed)
 // batchOK: height -> header and hash -> height maps describe chain headers consistently (C04 clause D)
-//@ pure batchOK(b) = b != nil && (forall h uint64 @ has(b.headers, h) :: has(b.headers, h) ==> b.headers[h].Height() == h && onChain(b.headers[h])) && (forall x string @ has(b.heights, x) :: has(b.heights, x) ==> has(b.headers, b.heights[x]) && hexStr(b.headers[b.heights[x]].Hash()) == x)
+//@ pure batchOK(b) = b != nil && (forall h uint64 @ has(b.headers, h) :: has(b.headers, h) ==> b.headers[h].Height() == h && onChain(b.headers[h]) && has(b.heights, hexStr(b.headers[h].Hash())) && b.heights[hexStr(b.headers[h].Hash())] == h) && (forall x string @ has(b.heights, x) :: has(b.heights, x) ==> has(b.headers, b.heights[x]) && hexStr(b.headers[b.heights[x]].Hash()) == x)
 
 //@ func (*batch).GetByHeight(b, height)
 //@   props C04
@@ -111,8 +111,8 @@ package store
 //@ func (*batch).DeleteRange(b, from, to)
 //@   props C04, C08
 //@   modifies MH_Int_Hdr_has, MH_Str_Int_has
-//@   ensures [C08] headers-removed: forall h uint64 @ has(b.headers, h) :: has(b.headers, h) <==> (old(has(b.headers, h)) && !(from <= h && h < to))
-//@   ensures [C08] heights-removed: forall x string @ has(b.heights, x) :: has(b.heights, x) <==> (old(has(b.heights, x)) && !(from <= b.heights[x] && b.heights[x] < to))
+//@   ensures [C04,C08] headers-removed: forall h uint64 @ has(b.headers, h) :: has(b.headers, h) <==> (old(has(b.headers, h)) && !(from <= h && h < to))
+//@   ensures [C04,C08] heights-removed: forall x string @ has(b.heights, x) :: has(b.heights, x) <==> (old(has(b.heights, x)) && !(from <= b.heights[x] && b.heights[x] < to))
 //@   ensures [C04] still-consistent: old(batchOK(b)) ==> batchOK(b)
 
 // every appended header is readable from the batch by height and by hash, older entries stay (C04)
